@@ -3,6 +3,7 @@ import vlib
 
 CFG = """CONSTANTS
   Names = %s
+  BadNames = %s
   Vals = %s
   MaxSteps = %d
   MaxRowsPerDb = %d
@@ -23,11 +24,20 @@ CFGS = {
               # mu1 / mu2 are written as the micro sign + s and the Greek mu + s: equal under case folding, different in lower case
               ('{"mu1", "mu2"}', "{1}", 9, 2, "ViewLast", None),
               # names that differ only in a character a file system treats specially: still two databases
-              ('{"a.1", "a_1"}', "{1}", 9, 2, "ViewLast", None)],
+              ('{"a.1", "a_1"}', "{1}", 9, 2, "ViewLast", None),
+              # names that are a path, not a name: refused, and nothing appears in the data directory, next to it or above it
+              ('{"x/y", "x", ".."}', "{1}", 7, 2, "ViewLast", None)],
     "thorough": [('{"a", "A", "b"}', "{1, 2}", 10, 2, "ViewLast2", 150000), ('{"a", "b", "c"}', "{1}", 8, 2, "ViewN", 150000), ('{"a", "b"}', "{1}", 13, 2, "ViewLast2", 150000),
                  ('{"d-1", "b"}', "{1}", 11, 2, "ViewLast", 100000), ('{"a.1", "a_1"}', "{1}", 11, 2, "ViewLast", 100000),
-                 ('{"mu1", "mu2"}', "{1}", 11, 2, "ViewLast", 100000)],
+                 ('{"mu1", "mu2"}', "{1}", 11, 2, "ViewLast", 100000), ('{"x/y", "x", "..", "."}', "{1}", 8, 2, "ViewLast", 100000)],
 }
+
+
+def bad_names(names):
+    """the names of a configuration that are not the name of one directory entry"""
+    import json
+    ns = json.loads("[" + names.strip("{}") + "]")
+    return "{" + ", ".join(json.dumps(n) for n in ns if "/" in n or n in (".", "..")) + "}"
 
 
 def run(ctx):
@@ -47,7 +57,7 @@ def run(ctx):
             return
         for idx, (names, vals, steps, rows, view, sample) in enumerate(CFGS[ctx.tier]):
             scns = []
-            res = vlib.run_tlc(ctx, "SessionMC", "SessionMC_gen.cfg", cfg_text=CFG % (names, vals, steps, rows, view), tag=str(idx),
+            res = vlib.run_tlc(ctx, "SessionMC", "SessionMC_gen.cfg", cfg_text=CFG % (names, bad_names(names), vals, steps, rows, view), tag=str(idx),
                                timeout=1500, on_scn=lambda k, o: scns.append(o))
             vlib.tlc_must_ok(ctx, res, "SessionMC %d" % idx)
             total = len(scns)
